@@ -27,6 +27,12 @@ def gen_call(rng):
         for s in c['sources']:
             if s['kind'] in ('pydict', 'pyjson') and any(not col.replace('_', '').isalnum() or not col.isascii() for col in s['cols']):
                 s['kind'] = 'frame'
+    if r > 0.8:
+        # a function-valued mapping with a user-defined function file (two files define the same function ids differently)
+        from .c14 import gen_fn_case
+        c = gen_fn_case(rng)
+        c['cfg']['udf_source'] = rng.choice(['udfs.py', 'udfs_alt.py'])
+        c['cfg']['_alt'] = c['cfg']['udf_source'] == 'udfs_alt.py'
     c['cfg']['na'] = rng.choice([['', 'nan'], [''], ['NULL', 'N/A'], ['a', 'b', '']])
     c['cfg']['safe'] = rng.choice(['', '', ':/', '/'])
     c['cfg']['printable'] = rng.random() < 0.3
@@ -45,9 +51,29 @@ def run(ctx, res):
         calls = [gen_call(ctx.rng) for _ in range(n)]
         if ctx.rng.random() < 0.6:
             calls.append(copy.deepcopy(calls[0]))          # the first call again at the end
+        if ctx.rng.random() < 0.35:
+            from .c14 import gen_fn_case
+            a = gen_fn_case(ctx.rng)
+            a['cfg']['udf_source'] = 'udfs.py'
+            b = copy.deepcopy(a)
+            b['cfg']['udf_source'] = 'udfs_alt.py'          # same mapping, same function ids, other implementations
+            calls = [a, b, copy.deepcopy(a)] + calls[:1]
         if ctx.rng.random() < 0.4 and n >= 2:
             calls[1] = dict(copy.deepcopy(calls[0]), cfg=dict(calls[0]['cfg'], na=['zz'], safe=':/?', printable=not calls[0]['cfg'].get('printable')))   # same mapping, other options
         seqs.append(calls)
+    # directed: the same mapping and function ids with two user-defined function files, back and forth
+    for fn in ('dup', 'nullif', 'pair', 'maybe'):
+        def tmf(k, v, ck='iri', tt=''):
+            return {'k': k, 'v': v, 'ck': ck, 'tt': tt}
+        ins = {'dup': [[EX + 'fn/p_v', 'ref', 'c1']], 'nullif': [[EX + 'fn/p_v', 'ref', 'c1'], [EX + 'fn/p_x', 'const', 'a']],
+               'pair': [[EX + 'fn/p_a', 'ref', 'c1'], [EX + 'fn/p_b', 'const', 'z']], 'maybe': [[EX + 'fn/p_v', 'ref', 'c1']]}[fn]
+        a = {'cfg': {'nquads': False, 'mode': 'NO', 'udfs': 'udfs.py', 'udf_source': 'udfs.py'},
+             'sources': [{'key': 'S0', 'kind': 'csv', 'cols': ['id', 'c1'], 'rows': [['1', 'a'], ['2', 'b,c'], ['3', 'd']]}],
+             'doc': [{'id': EX + 'tm/T', 'src': 'S0', 'nonasserted': False, 'subj': tmf('templ', EX + 'r/{id}'), 'sjoins': [], 'classes': [], 'sgraphs': [],
+                      'poms': [{'preds': [tmf('const', EX + 'p/f')], 'objs': [{'m': tmf('exec', EX + 'exec/E1'), 'lang': None, 'dt': None, 'joins': []}], 'graphs': []}]}],
+             'execs': [{'id': EX + 'exec/E1', 'fun': EX + 'fn/' + fn, 'inputs': ins}]}
+        b = copy.deepcopy(a); b['cfg']['udf_source'] = 'udfs_alt.py'
+        seqs.append([a, b, copy.deepcopy(a), copy.deepcopy(b)])
     jobs_seq, jobs_single, meta, dirs = [], [], [], []
     for si, calls in enumerate(seqs):
         items = []
